@@ -132,6 +132,13 @@ impl<'a> Paramizer<'a> {
                 .iter()
                 .map(|s| match s {
                     Scope::Key(k) if self.t.chance(1, 2) => {
+                        // the same scope parameter can occur in several rules / alternatives
+                        // when it stands for the same key
+                        let existing: Vec<String> = self.scope_values.iter().filter(|(_, val)| *val == k).map(|(n, _)| n.clone()).collect();
+                        if !existing.is_empty() && self.t.chance(2, 3) {
+                            self.positions.push("scope/shared-name".into());
+                            return Scope::Param(existing[0].clone());
+                        }
                         let name = self.fresh();
                         self.scope_values.insert(name.clone(), *k);
                         self.positions.push("scope".into());
